@@ -29,7 +29,122 @@ func (ast *Ast) EquivalentCall(other *Ast) bool {
 		other.Callables == nil || other.Callables.Table == nil {
 		return false
 	}
-	return ast.Call.EquivalentTo(other.Call, ast.Callables, other.Callables)
+	if !ast.Call.EquivalentTo(other.Call, ast.Callables, other.Callables) {
+		return false
+	}
+	// The parameter comparisons above look at type names only.  A struct
+	// type may keep its name while its definition changes, so the struct
+	// types used by the compared parameters are compared by definition.
+	cmp := structComparer{mine: &ast.TypeTable, theirs: &other.TypeTable}
+	if !cmp.call(ast.Call, other.Call, ast.Callables, other.Callables) {
+		util.PrintInfo("compare",
+			"Struct type definitions do not match.")
+		return false
+	}
+	return true
+}
+
+// structComparer compares the definitions of the struct types used by the
+// parameters of the callables reachable from a call.
+type structComparer struct {
+	mine, theirs *TypeLookup
+}
+
+// Two type names are equivalent if neither refers to a struct type, or both
+// do and the structs have the same member names, with members agreeing in
+// the same way as parameters must agree (see InParams.Equals) and having
+// equivalent types.
+func (c structComparer) typeName(mine, theirs string) bool {
+	ms, _ := c.mine.Get(TypeId{Tname: mine}).(*StructType)
+	ts, _ := c.theirs.Get(TypeId{Tname: theirs}).(*StructType)
+	if ms == nil || ts == nil {
+		return ms == nil && ts == nil
+	}
+	if len(ms.Members) != len(ts.Members) {
+		return false
+	}
+	for _, m := range ms.Members {
+		if om := ts.getMember(m.Id); om == nil {
+			return false
+		} else if !c.member(m, om) {
+			return false
+		}
+	}
+	return true
+}
+
+func (c structComparer) member(m, om StructMemberLike) bool {
+	if m.GetArrayDim() != om.GetArrayDim() || m.IsFile() != om.IsFile() {
+		return false
+	} else if m.IsFile() != KindIsFile && m.GetTname() != om.GetTname() {
+		return false
+	}
+	return c.typeName(m.GetTname().Tname, om.GetTname().Tname)
+}
+
+func (c structComparer) inParams(params, other *InParams) bool {
+	if params == nil || len(params.List) == 0 {
+		return other == nil || len(other.List) == 0
+	} else if other == nil || len(other.List) != len(params.List) {
+		return false
+	}
+	for _, arg := range params.List {
+		if oa := other.Table[arg.GetId()]; oa == nil {
+			return false
+		} else if !c.typeName(arg.GetTname().Tname, oa.GetTname().Tname) {
+			return false
+		}
+	}
+	return true
+}
+
+func (c structComparer) outParams(params, other *OutParams) bool {
+	if params == nil || len(params.List) == 0 {
+		return other == nil || len(other.List) == 0
+	} else if other == nil || len(other.List) != len(params.List) {
+		return false
+	}
+	for _, arg := range params.List {
+		if oa := other.Table[arg.GetId()]; oa == nil {
+			return false
+		} else if !c.typeName(arg.GetTname().Tname, oa.GetTname().Tname) {
+			return false
+		}
+	}
+	return true
+}
+
+func (c structComparer) call(call, other *CallStm,
+	myCallables, otherCallables *Callables) bool {
+	callable := myCallables.Table[call.DecId]
+	oc := otherCallables.Table[other.DecId]
+	if callable == nil || oc == nil {
+		return callable == nil && oc == nil
+	}
+	if !c.inParams(callable.GetInParams(), oc.GetInParams()) ||
+		!c.outParams(callable.GetOutParams(), oc.GetOutParams()) {
+		return false
+	}
+	if pipeline, ok := callable.(*Pipeline); ok {
+		op, ok := oc.(*Pipeline)
+		if !ok || len(pipeline.Calls) != len(op.Calls) {
+			return false
+		}
+		oCalls := make(map[string]*CallStm, len(op.Calls))
+		for _, call := range op.Calls {
+			oCalls[call.Id] = call
+		}
+		for _, call := range pipeline.Calls {
+			if ocall := oCalls[call.Id]; ocall == nil {
+				return false
+			} else if !c.call(call, ocall, myCallables, otherCallables) {
+				return false
+			}
+		}
+	} else if _, ok := oc.(*Pipeline); ok {
+		return false
+	}
+	return true
 }
 
 // Two calls are semantically equivalent if their (possibly aliased) names are
